@@ -39,6 +39,12 @@ let dispatch f args = match f, args with
      | Ret (Some o) -> show_option show_bytes (run_payload (arg_n net) (arg_n which) o)
      | Ret None -> "N"
      | other -> show_result other)
+  (* parse, then the text form of a public key / electrum wallet (utf-32-be) *)
+  | "astext", [e; net; t] ->
+    (match run_entry raw (arg_n net) (arg_n e) (text_of_utf32 (arg_bytes t)) with
+     | Ret (Some o) -> show_outcome (fun tx -> show_bytes (utf32_of_text tx)) (run_text (arg_n net) o)
+     | Ret None -> "N"
+     | other -> show_result other)
   | "table_size", [] -> show_n drv_table_size
   | "kinds_separated", [net] -> show_bool (drv_kinds_separated (arg_n net))
   | _ -> failwith ("unknown function " ^ f)
